@@ -31,6 +31,7 @@ import (
 	"google.golang.org/protobuf/encoding/protowire"
 	"google.golang.org/protobuf/proto"
 	"google.golang.org/protobuf/types/descriptorpb"
+	"google.golang.org/protobuf/types/dynamicpb"
 	"google.golang.org/protobuf/types/known/durationpb"
 	"google.golang.org/protobuf/types/known/sourcecontextpb"
 	"google.golang.org/protobuf/types/known/structpb"
@@ -483,6 +484,7 @@ func streamC11(r *hx.Rng) {
 		}
 	}
 	streamEqualNaN()
+	streamFreshMarshalAndDynamic()
 	streamMixedRace(ps)
 	// first-use race: G goroutines classify a fresh type at once (type cache emptied through the verif hook)
 	trials := 200
@@ -568,6 +570,80 @@ func streamMixedRace(ps []probe) {
 		}
 	}
 	sink.Count("race-mixed-rounds")
+}
+
+// (1) Marshal as the FIRST thing done to a freshly built message with populated nested messages (the table-driven
+// runtimes take nested length prefixes from caches that only a sizing pass fills in), and again after a nested field
+// was modified; (2) Equal / Clone / Marshal across Go types that share a descriptor (generated type vs dynamicpb):
+// the Google-v2 runtime compares by descriptor
+func streamFreshMarshalAndDynamic() {
+	t := true
+	type fp struct {
+		name, owner string
+		mk          func() interface{}
+		poke        func(m interface{})
+	}
+	for _, p := range []fp{
+		{"gogodesc.File+nested", "gogo", func() interface{} {
+			return &gogodesc.FileDescriptorProto{Name: str("f.proto"), Package: str("p"), MessageType: []*gogodesc.DescriptorProto{{Name: str("M"),
+				Field: []*gogodesc.FieldDescriptorProto{{Name: str("id"), Number: i32(1), Options: &gogodesc.FieldOptions{Deprecated: &t}}}}}}
+		}, func(m interface{}) {
+			m.(*gogodesc.FileDescriptorProto).MessageType[0].Name = str("a-much-longer-message-name-than-before")
+		}},
+		{"gogotypes.Type+nested", "gogo", func() interface{} {
+			return &gogotypes.Type{Name: "T", Fields: []*gogotypes.Field{{Name: "a", Number: 1}}, SourceContext: &gogotypes.SourceContext{FileName: "f.proto"}}
+		}, func(m interface{}) { m.(*gogotypes.Type).Fields[0].Name = strings.Repeat("n", 200) }},
+		{"descriptorpb.File+nested", "google", func() interface{} {
+			return &descriptorpb.FileDescriptorProto{Name: proto.String("f.proto"), MessageType: []*descriptorpb.DescriptorProto{{Name: proto.String("M"),
+				Field: []*descriptorpb.FieldDescriptorProto{{Name: proto.String("id"), Number: proto.Int32(1)}}}}}
+		}, func(m interface{}) {
+			m.(*descriptorpb.FileDescriptorProto).MessageType[0].Name = proto.String("a-much-longer-message-name-than-before")
+		}},
+	} {
+		for _, via := range []string{"marshal", "codec"} {
+			m := p.mk()
+			for step := 0; step < 2; step++ {
+				var got []byte
+				var err error
+				if via == "marshal" {
+					got, err = csproto.Marshal(m)
+				} else {
+					got, err = csproto.GrpcCodec{}.Marshal(m)
+				}
+				fresh := p.mk()
+				if step == 1 {
+					p.poke(fresh)
+				}
+				want, _ := ownerMarshal(p.owner, fresh)
+				sink.OracleN++
+				d := reflect.New(reflect.TypeOf(m).Elem()).Interface()
+				if err != nil || len(got) != len(want) || ownerUnmarshal(p.owner, got, d) != nil || !ownerEqual(p.owner, d, fresh) {
+					fail("Marshal of a message that was never sized (or was modified since) is not the encoding of its contents", fmt.Sprintf("probe=%s via=%s step=%d", p.name, via, step), hx.B(want), hx.B(got), "shim-fresh-marshal")
+				}
+				p.poke(m)
+			}
+		}
+	}
+	// generated type vs dynamicpb on the same descriptor
+	for _, g := range []proto.Message{&typepb.Field{Name: "f", Number: 3, Kind: typepb.Field_TYPE_INT64}, &timestamppb.Timestamp{Seconds: 7, Nanos: 9}, wrapperspb.String("w")} {
+		b, _ := proto.Marshal(g)
+		dyn := dynamicpb.NewMessage(g.ProtoReflect().Descriptor())
+		hx.Must(proto.Unmarshal(b, dyn))
+		other := dynamicpb.NewMessage(g.ProtoReflect().Descriptor())
+		for _, pair := range [][2]proto.Message{{g, dyn}, {dyn, g}, {g, other}, {other, g}, {dyn, other}} {
+			sink.OracleN++
+			if got, want := csproto.Equal(pair[0], pair[1]), proto.Equal(pair[0], pair[1]); got != want {
+				fail("Equal differs from the owning runtime's Equal for two Go types sharing a descriptor", fmt.Sprintf("%T vs %T (%s)", pair[0], pair[1], g.ProtoReflect().Descriptor().FullName()), fmt.Sprint(want), fmt.Sprint(got), "shim-equal-dynamic")
+			}
+		}
+		sink.OracleN++
+		cb, err := csproto.Marshal(dyn)
+		back := dynamicpb.NewMessage(g.ProtoReflect().Descriptor())
+		// (dynamicpb writes its fields in its own order: compare by decoding, not byte for byte)
+		if c, ok := csproto.Clone(dyn).(proto.Message); err != nil || len(cb) != len(b) || proto.Unmarshal(cb, back) != nil || !proto.Equal(back, g) || !ok || !proto.Equal(c, dyn) || csproto.Size(dyn) != len(b) {
+			fail("Marshal / Size / Clone of a dynamicpb message differ from the runtime's", string(g.ProtoReflect().Descriptor().FullName()), hx.B(b), hx.B(cb), "shim-dynamic")
+		}
+	}
 }
 
 // Equal on messages holding NaN, with themselves, a clone and a decoded copy: the owning runtime's answer (protobuf-go
